@@ -45,7 +45,7 @@ Init ==
   /\ l = 1 /\ viol = <<>> /\ nviol = [c \in Comps |-> 0] /\ fs = <<>> /\ calls = <<>> /\ open = <<>> /\ run = "" /\ fork = 0
   /\ jpx = [on |-> FALSE, pos |-> 0, exp |-> <<>>, i |-> 0]
   /\ cnt = [lines |-> 0, runs |-> 0, steps |-> 0, gascont |-> 0, oog |-> 0, pcrule |-> 0, stackrule |-> 0, constgas |-> 0,
-            memgas |-> 0, callret |-> 0, enters |-> 0, results |-> 0, tracerouts |-> 0, nodes |-> 0, refused |-> 0, trees |-> 0, forkgas |-> 0, firings |-> 0]
+            memgas |-> 0, callret |-> 0, enters |-> 0, results |-> 0, tracerouts |-> 0, nodes |-> 0, refused |-> 0, trees |-> 0, forkgas |-> 0, firings |-> 0, refunds |-> 0]
 
 ---------------------------------------------------------------------------
 (* refinement: which fields belong to which component *)
@@ -224,7 +224,8 @@ Line ==
           [] a.k = "result" \/ r.k = "result" ->
                /\ AddViol(LineDiffs(a, r), a, r)
                /\ fs' = <<>>
-               /\ cnt' = [cnt EXCEPT !.lines = @ + 1, !.results = @ + 1]
+               /\ cnt' = [cnt EXCEPT !.lines = @ + 1, !.results = @ + 1,
+                                     !.refunds = @ + (IF r.k = "result" /\ r.costx \notin {"", "0"} THEN 1 ELSE 0)]   \* runs that end with a non-zero refund counter
                /\ UNCHANGED <<run, fork, calls, open, jpx>>
           [] a.k = "jp" ->
                \* one firing seen by the Aspect provider: a.d = callbacks recorded before it, a.to = contract, a.name = pre/post
